@@ -71,6 +71,12 @@ var c08Misplaced = []faCase{
 	{name: "dots-kind-mismatch-for-to-list",
 		patch: "@@\n@@\n-for ... {\n-\tbar()\n-}\n+foo(...)\n",
 		minus: "package p\n\nfunc f() {\n\t⟦for i := 0; i < 3; i++ {\n\t\tbar()\n\t}⟧\n}\n"},
+	{name: "dots-kind-mismatch-plus-first-statement",
+		patch: "@@\n@@\n+pre()\n+bar(...)\n-foo(...)\n",
+		minus: "package p\n\nfunc f() {\n\tsetup()\n\t⟦foo(«d1:1, 2»)⟧\n}\n"},
+	{name: "dots-kind-mismatch-results-regrouped",
+		patch: "@@\n@@\n-func name() (error, ...) {\n- return nil, ...\n+func name() (..., error) {\n+ return ..., nil\n }\n",
+		minus: "package p\n\n⟦func name() (error, «d1:string») {\n\treturn nil, «d2:\"s\"»\n}⟧\n"},
 	{name: "ident-mv-everywhere-is-fine", idents: []string{"v"},
 		patch: "@@\nvar v identifier\n@@\n-foo(v)\n+x.v\n",
 		minus: "package p\n\nvar a = ⟦foo(«v:name»)⟧\n"},
